@@ -67,3 +67,6 @@ pub uninterp spec fn sa6_ip(a: SocketAddrV6) -> Ipv6Addr;
 pub uninterp spec fn sa6_port(a: SocketAddrV6) -> u16;
 pub uninterp spec fn sa6_flow(a: SocketAddrV6) -> u32;
 pub uninterp spec fn sa6_scope(a: SocketAddrV6) -> u32;
+
+/// a `Vec<T>` exists for every sequence (see trusted.rs: axiom_vec_of)
+pub uninterp spec fn vec_of<T>(s: Seq<T>) -> Vec<T>;
